@@ -26,6 +26,19 @@ std::string Json(const std::string& s) {
 }
 
 std::string RunLine(std::size_t idx, const std::string& text) {
+  if (text.rfind("(share ", 0) == 0) {
+    // (share <extra handles> SRC P1 P2)
+    h::Parser ps{text.c_str() + 7};
+    const int extra = ps.Int();
+    h::Prog src = ps.ParseProg();
+    h::Prog p1 = ps.ParseProg();
+    h::Prog p2 = ps.ParseProg();
+    h::ShareOutcome o = h::RunShare(extra, src, p1, p2);
+    return "{\"i\":" + std::to_string(idx) + ",\"final\":\"" + o.direct.Str() + "\",\"final1\":\"" + o.final1.Str() +
+           "\",\"final2\":\"" + o.final2.Str() + "\",\"again\":\"" + o.direct_again.Str() + "\",\"events\":\"" +
+           h::EventsStr(o.events) + "\",\"live\":" + std::to_string(o.live_after) +
+           ",\"once\":" + (o.tokens_once ? "true" : "false") + ",\"fail\":\"" + Json(o.fail) + "\",\"key\":\"" + o.key + "\"}\n";
+  }
   h::Parser ps{text.c_str()};
   h::Prog p = ps.ParseProg();
   h::Outcome o = h::RunProgram(p);
